@@ -140,6 +140,8 @@ def run(R):
         g_start = CallGuard([SM + "start"], ("Ok",), "self.start() is Ok")
         R.gate("C19.upgrade.stop", upg, CallSink("std::fs::copy", SC + "uninstall", SC + "install"), [[g_stop]],
                descr="upgrade replaces the binary and the service definition only after the service was stopped")
+        R.gate("C19.upgrade.uninstall", upg, CallSink(SC + "install"), [[CallGuard([SC + "uninstall"], ("Ok",), "service_control.uninstall is Ok")]],
+               descr="upgrade installs the new definition only after the old one was uninstalled (a service whose definition is gone — removed — is not brought back)")
         R.gate("C19.upgrade.version", upg, CallSink(SSA + "set_version"), [[g_inst]],
                descr="the new version is recorded only after the new definition was installed", min_sinks=1)
         from rules import FieldBoolGuard
@@ -233,7 +235,11 @@ def run(R):
             l = sorted(nn)[0]
             _, calls = backward_calls(add, l)
             names = {c["ncallee"] or "" for c in calls}
-            if any(n.endswith("Iterator::max") for n in names) and {d for d, r, p in field_reads(add, "number")} | {1}:
+            from rules import DROPPING_ADAPTORS
+            narrowed = [n for n in names if any(n.endswith(x) or (x + "<") in n for x in DROPPING_ADAPTORS)]
+            if narrowed:
+                how = "max over a narrowed set of the recorded services (%s)" % narrowed[0].split("::")[-1]
+            elif any(n.endswith("Iterator::max") for n in names) and {d for d, r, p in field_reads(add, "number")} | {1}:
                 inner = [c for c in F.item(ADD) if c.kind == "closure" and any(p[-1] == ".number" for d, r, p in (prep(c) or field_reads(c, "number")))]
                 ok = bool(inner)
                 how = "max(recorded number) + 1"
@@ -295,7 +301,12 @@ def _number_scheme(R, body_path, rule):
     for _, s, o in ops:
         _, calls = backward_calls(b, op_local(o))
         names = {c["ncallee"] or "" for c in calls}
-        if any(n.endswith("Iterator::max") for n in names):
+        from rules import DROPPING_ADAPTORS
+        narrowed = [n for n in names if any(n.endswith(x) or (x + "<") in n for x in DROPPING_ADAPTORS)]
+        if narrowed:
+            how = "max over a narrowed set of the recorded services (%s)" % narrowed[0].split("::")[-1]
+            ok = False
+        elif any(n.endswith("Iterator::max") for n in names):
             how = "max(recorded number) + 1"
         elif any(n.endswith("Vec::len") for n in names):
             how = "nodes.len() + 1"
